@@ -1922,6 +1922,9 @@ def run(ctx: Ctx) -> None:
                 "distinct configuration / history")
     contract_selftest(ctx)
     rng = ctx.rng
+    import postsel
+
+    postsel.run_stream(ctx, pyrandom.Random(f"C07-postsel-{ctx.seed}"), ctx.n(300, 4000))
     try:
         _run_streams(ctx, rng)
     finally:
